@@ -11,6 +11,13 @@ use std::time::{Duration, Instant};
 use vcommon::{Report, Scenario, Violation};
 
 const PROPS: [&str; 6] = ["C01", "C02", "C03", "C04", "C06", "C09"];
+fn props_for(cfg: &Cfg) -> Vec<String> {
+    if cfg.flavour.is_broadcast() {
+        ["C07", "C04", "C09"].iter().map(|s| s.to_string()).collect()
+    } else {
+        PROPS.iter().map(|s| s.to_string()).collect()
+    }
+}
 
 fn prefixes(fl: Flavour, cap: Option<usize>, ta: bool, ra: bool) -> Vec<(String, Vec<Act>)> {
     use chan::api::Op;
@@ -60,9 +67,10 @@ fn configs(tier: &str) -> Vec<Cfg> {
             for (ta, ra) in kinds {
                 let warms: Vec<usize> = match (tier, cap) {
                     (_, Some(0)) => vec![0],
+                    ("quick", None) => vec![0, 5],
                     ("quick", _) => vec![0],
                     (_, Some(c)) => vec![0, c, 2 * c + 1],
-                    (_, None) => vec![0, 3, 5],
+                    (_, None) => vec![0, 3, 5, 9],
                 };
                 let (depth, slim, pdepth) = match tier {
                     "quick" => (4, true, 3),
@@ -78,7 +86,7 @@ fn configs(tier: &str) -> Vec<Cfg> {
                     observers: true,
                     max_tx: if fl.multi_tx() { 2 } else { 1 },
                     max_rx: if fl.multi_rx() { 2 } else { 1 },
-                    max_futs: 2,
+                    max_futs: if fl.is_broadcast() { 0 } else { 2 },
                     slim,
                     prefix: vec![],
                     prefix_name: String::new(),
@@ -87,7 +95,10 @@ fn configs(tier: &str) -> Vec<Cfg> {
                     v.push(Cfg { warm, ..base.clone() });
                 }
                 for (name, p) in prefixes(fl, cap, ta, ra) {
-                    v.push(Cfg { depth: pdepth_env.unwrap_or(pdepth), prefix: p, prefix_name: name, max_futs: 3, ..base.clone() });
+                    if fl.is_broadcast() && name != "full" && name != "full-minus-1" {
+                        continue;
+                    }
+                    v.push(Cfg { depth: pdepth_env.unwrap_or(pdepth), prefix: p, prefix_name: name, max_futs: if fl.is_broadcast() { 0 } else { 3 }, ..base.clone() });
                 }
             }
         }
@@ -117,6 +128,7 @@ fn enc(a: &Act) -> [u8; 3] {
         Act::DropRx(i) => [3, *i as u8, 0],
         Act::PollTask(t, i) => [4, *t as u8, *i as u8],
         Act::DropFut(i) => [5, *i as u8, 0],
+        Act::Migrate(t, i) => [6, *t as u8, *i as u8],
     }
 }
 fn dec(b: [u8; 3]) -> Act {
@@ -126,6 +138,7 @@ fn dec(b: [u8; 3]) -> Act {
         2 => Act::DropTx(b[1] as usize),
         3 => Act::DropRx(b[1] as usize),
         4 => Act::PollTask(b[1] != 0, b[2] as usize),
+        6 => Act::Migrate(b[1] != 0, b[2] as usize),
         _ => Act::DropFut(b[1] as usize),
     }
 }
@@ -187,6 +200,7 @@ fn witness(h: &[Act]) -> String {
             Act::DropRx(i) => format!("R{}.d", i),
             Act::PollTask(t, i) => format!("{}{}.poll", if *t { "S" } else { "R" }, i),
             Act::DropFut(i) => format!("f{}.d", i),
+            Act::Migrate(t, i) => format!("{}{}.mig", if *t { "S" } else { "R" }, i),
         })
         .collect::<Vec<_>>()
         .join(",")
@@ -276,7 +290,7 @@ fn run_cfg(cfg: &Cfg, skip0: &BTreeSet<Vec<Act>>) -> (Scenario, Vec<Violation>) 
                 bound.insert("max_model_states".to_string(), serde_json::json!(stats.max_model_states));
                 let sc = Scenario {
                     name: cfg.name(),
-                    properties: PROPS.iter().map(|s| s.to_string()).collect(),
+                    properties: props_for(cfg),
                     executions: stats.nodes,
                     states: stats.nodes,
                     transitions: stats.steps,
@@ -299,6 +313,7 @@ fn run_cfg(cfg: &Cfg, skip0: &BTreeSet<Vec<Act>>) -> (Scenario, Vec<Violation>) 
                     Some(Act::Tx(_, op)) | Some(Act::Rx(_, op)) => format!("{:?}", op),
                     Some(Act::PollTask(..)) => "poll".into(),
                     Some(Act::DropFut(_)) => "drop_future".into(),
+                    Some(Act::Migrate(..)) => "migrate".into(),
                     Some(Act::DropTx(_)) => "drop_sender".into(),
                     Some(Act::DropRx(_)) => "drop_receiver".into(),
                     None => "init".into(),
@@ -313,7 +328,7 @@ fn run_cfg(cfg: &Cfg, skip0: &BTreeSet<Vec<Act>>) -> (Scenario, Vec<Violation>) 
                 skip.insert(hist);
                 caps.push(format!("history hung and was skipped (subtree unexplored): {}", last_op));
                 if skip.len() > skip0.len() + 40 {
-                    let sc = Scenario { name: cfg.name(), properties: PROPS.iter().map(|s| s.to_string()).collect(), exhaustive: false, caps, wall_s: t0.elapsed().as_secs_f64(), ..Default::default() };
+                    let sc = Scenario { name: cfg.name(), properties: props_for(cfg), exhaustive: false, caps, wall_s: t0.elapsed().as_secs_f64(), ..Default::default() };
                     return (sc, hang_viol);
                 }
             }
@@ -370,6 +385,7 @@ fn run_cfg_in_child(cfg: &Cfg) -> (Scenario, Vec<Violation>) {
             Some(Act::Tx(_, op)) | Some(Act::Rx(_, op)) => format!("{:?}", op),
             Some(Act::PollTask(..)) => "poll".into(),
             Some(Act::DropFut(_)) => "drop_future".into(),
+            Some(Act::Migrate(..)) => "migrate".into(),
             Some(Act::DropTx(_)) => "drop_sender".into(),
             Some(Act::DropRx(_)) => "drop_receiver".into(),
             None => "init".into(),
@@ -400,7 +416,7 @@ fn run_cfg_in_child(cfg: &Cfg) -> (Scenario, Vec<Violation>) {
             (sc, vs)
         }
         None => (
-            Scenario { name: cfg.name(), properties: PROPS.iter().map(|s| s.to_string()).collect(), exhaustive: false, caps, wall_s: t0.elapsed().as_secs_f64(), ..Default::default() },
+            Scenario { name: cfg.name(), properties: props_for(cfg), exhaustive: false, caps, wall_s: t0.elapsed().as_secs_f64(), ..Default::default() },
             crash_viol,
         ),
     }
